@@ -584,6 +584,25 @@ func runC17(p *an.Prog, r *an.Run, tier string) {
 							why = append(why, "the saved remainder replaces the earlier one without keeping its unread tail (several small messages arriving behind a large one are lost)")
 							return
 						}
+						// the remainder must be carried over byte for byte
+						for _, nd := range ds.Nodes {
+							if cc, ok := nd.(*ssa.Call); ok {
+								if f := an.CallObj(cc); f != nil && f.Pkg() != nil && (f.Pkg().Path() == "bytes" || f.Pkg().Path() == "strings") {
+									switch f.Name() {
+									case "NewReader", "NewBuffer", "NewBufferString", "Bytes", "String", "ReadFrom", "Write", "WriteTo", "WriteString", "Len", "Join":
+									default:
+										why = append(why, "the carried-over bytes are passed through "+an.ObjString(f)+": a remainder cut inside a JSON string would be altered")
+										return
+									}
+								}
+							}
+							if sl, ok := nd.(*ssa.Slice); ok && (sl.Low != nil || sl.High != nil) {
+								if _, isBuf := sl.X.Type().Underlying().(*types.Slice); isBuf {
+									why = append(why, "the carried-over bytes are sliced before being saved")
+									return
+								}
+							}
+						}
 						kept = true
 						for _, dc := range an.Calls(fn, false) {
 							if g := an.CallObj(dc); g != nil && g.Name() == "Decode" && dc.Common().Args[0] == dec {
@@ -660,6 +679,51 @@ func runC17(p *an.Prog, r *an.Run, tier string) {
 				}
 			}
 		}
+		// deferred connection I/O registered before the deferred Unlock runs after it (LIFO): outside the lock
+		for i := 0; i < gc.NumMethods(); i++ {
+			m := p.SSA.FuncValue(gc.Method(i))
+			if m == nil || len(m.Blocks) == 0 {
+				continue
+			}
+			var unlocks, ios []*ssa.Defer
+			an.AllInstrs(m, func(in ssa.Instruction) {
+				df, ok := in.(*ssa.Defer)
+				if !ok {
+					return
+				}
+				f := an.CallObj(df)
+				if f != nil && f.Pkg() != nil && f.Pkg().Path() == "sync" && f.Name() == "Unlock" {
+					unlocks = append(unlocks, df)
+					return
+				}
+				// io on the connection or on a writer/reader obtained from it
+				isIO := false
+				if f != nil && an.RecvNamed(f) != nil && an.RecvNamed(f).Obj().Pkg() != nil && an.RecvNamed(f).Obj().Pkg().Path() == "github.com/gorilla/websocket" {
+					isIO = true
+				}
+				var recvv ssa.Value
+				if df.Call.IsInvoke() {
+					recvv = df.Call.Value
+				} else if len(df.Call.Args) > 0 {
+					recvv = df.Call.Args[0]
+				}
+				if recvv != nil && p.Derives(0, recvv).CallTo(func(g *types.Func) bool {
+					return an.RecvNamed(g) != nil && an.RecvNamed(g).Obj().Pkg() != nil && an.RecvNamed(g).Obj().Pkg().Path() == "github.com/gorilla/websocket"
+				}) != nil {
+					isIO = true
+				}
+				if isIO && f != nil && f.Name() != "Close" || isIO && recvv != nil && df.Call.IsInvoke() {
+					ios = append(ios, df)
+				}
+			})
+			for _, io := range ios {
+				for _, u := range unlocks {
+					if an.Dominates(io, u) {
+						bad = append(bad, "in "+an.FuncName(m)+" the deferred connection I/O at "+p.Pos(io.Pos())+" is registered before the deferred Unlock at "+p.Pos(u.Pos())+": deferred calls run last-in-first-out, so it executes after the mutex has been released and a second writer can interleave its frame")
+					}
+				}
+			}
+		}
 		r.Floor("gorilla-io-calls", nIO, 2)
 		r.Check(len(bad) == 0, "single-writer", "gorilla.wsCodec", token.NoPos, "every connection write holds muWrite, every read holds muRead", "%s", strings.Join(bad, "; "))
 	}
@@ -700,6 +764,31 @@ func runC17(p *an.Prog, r *an.Run, tier string) {
 			bad = append(bad, failPropagates(p, wm, fl)...)
 		}
 		r.Check(len(bad) == 0, "framing", "gobwas.wsCodec", rm.Pos(), "NextFrame before each read, Flush after each write", "%s", strings.Join(bad, "; "))
+	}
+
+	// ---- full-read: a message body is never taken from a single Read call (the transport may deliver it in pieces)
+	{
+		var bad []string
+		for _, fn := range p.Repo {
+			top := fn
+			for top.Parent() != nil {
+				top = top.Parent()
+			}
+			if top.Pkg == nil || !strings.HasPrefix(top.Pkg.Pkg.Path(), pkgRPC) {
+				continue
+			}
+			for _, c := range an.Calls(fn, false) {
+				f := an.CallObj(c)
+				if f == nil || f.Name() != "Read" || !c.Common().IsInvoke() {
+					continue
+				}
+				if fn.Name() == "Read" {
+					continue // a reader wrapper forwarding Read
+				}
+				bad = append(bad, an.FuncName(fn)+" takes message bytes from a single Read call at "+p.Pos(c.Pos())+": a reply that does not arrive in one piece is truncated (use a decoder, io.ReadFull or ReadAll)")
+			}
+		}
+		r.Check(len(bad) == 0, "full-read", "package jsonrpc2", token.NoPos, "no message is read with a bare Read call", "%s", strings.Join(bad, "; "))
 	}
 
 	// ---- shipped-codec
